@@ -579,10 +579,10 @@ def dir_hash(d):
                 h.update(fh.read())
     return h.hexdigest()[:16]
 
-def load_witness(name, features='-', repo=REPO):
+def load_witness(name, features='-', repo=REPO, wdir=None):
     """compile the witness crate /verif/witness/<name> (which depends on /repo by path) under the driver
     and load the facts of the witness crate itself"""
-    wdir = os.path.join(VERIF, 'witness', name)
+    wdir = wdir or os.path.join(VERIF, 'witness', name)
     th = tree_hash(repo)
     d = os.path.join(CACHE, th)
     os.makedirs(d, exist_ok=True)
